@@ -38,6 +38,7 @@ from vlib.jobs import Job  # noqa: E402
 import threading  # noqa: E402
 
 _ABORT = threading.Event()
+_BUDGET = [0.0]
 _DEADLINE = [0.0]  # thorough tier: jobs not STARTED by then are reported as not run (inconclusive), see main()
 _PROCS = set()
 
@@ -47,6 +48,8 @@ def _run_worker(module, job, twin):
     env["XSV_TWIN"] = "1" if twin else "0"
     env["XSDATA_SRC"] = SRC
     env["PYTHONHASHSEED"] = "0"
+    if _DEADLINE[0] and _BUDGET[0] > 0:
+        job.timeout = min(job.timeout, max(300, int(_BUDGET[0])))  # under a budget no single job may outlast the tier
     if job.kind == "ch":
         tcond = min(job.timeout, 60) if twin else job.timeout
         cmd = [PY, os.path.join(VERIF, "vlib", "chworker.py"), module, job.fn, json.dumps(job.part), str(tcond), str(job.path_timeout)]
@@ -233,6 +236,7 @@ def main():
         budget = float(os.environ.get("XSV_BUDGET_S", "2700"))
         random.Random(int(os.environ.get("VERIF_SEED", "1") or 1)).shuffle(jobs)
         if budget > 0:
+            _BUDGET[0] = budget
             _DEADLINE[0] = time.time() + budget
 
     pending_errors = []
